@@ -233,13 +233,15 @@ EXTRA = {
     "C12": " Also: placement histories that put a digit boundary inside the objects of several counters at once (constants crosswise on two meshes), coefficients on mixed spaces over a MeshSequence and their fixed components. Placed families 'domains' (three meshes, two of them not integration domains) and 'contraction' (subscripts that sum several indices, grad, dx): TLC proves SigInvariant per family and every behaviour is replayed.",
     "C13": " Also: scalar-literal constructor calls (IntValue/FloatValue/ComplexValue/as_ufl x int, bool, numpy integer, float, numpy float, complex, numpy complex x the flyweight cache of IntValue as state), including purely imaginary numbers with signed zero real part. Round trips (pickle protocols, copy, deepcopy, eval(repr)) are actions of the literal mode with the flyweights of Zero and MultiIndex as state: a round trip must leave every other object, the shared flyweights included, as it was.",
     "C16": " Also: transparent wrappers (variable, conj, real, imag, neg, indexed, index sums) over sums of terms of different arity.",
-    "C17": " Also: five mesh kinds (affine, P2, affine manifold, P2 manifold, broken coordinates): the two facet-normal values are opposite exactly on affine H1 meshes with gdim = tdim and independent elsewhere; cell normals and reference normals.",
-    "C18": " Also: symmetric elements with vector/tensor valued, Piola mapped or mixed sub-elements of different degrees, symmetric elements inside mixed elements and vice versa.",
+    "C17": " Also: five mesh kinds (affine, P2, affine manifold, P2 manifold, broken coordinates): the two facet-normal values are opposite exactly on affine H1 meshes with gdim = tdim and independent elsewhere; cell normals and reference normals. Measures over several domains (ds/dx with intersecting dS of another mesh, dS with a second dS or ds): FormData's propagation guard and per-domain default restrictions as coded, one-sided domains where a restriction has no meaning.",
+    "C18": " Also: symmetric elements with vector/tensor valued, Piola mapped or mixed sub-elements of different degrees, symmetric elements inside mixed elements and vice versa. Form operations as root terms: derivative with respect to a tuple of coefficients (the mixed element built by derivative()) and shape derivatives (coordinate_derivative with the direction's degree), estimated through compute_form_data.",
     "C19": " Also: DAGTraverser rules with keyword context (different subsets of keywords on different paths, one traverser reused across roots, shared caches): the memo key must be (node, full ordered context); the same rule tables run through MultiFunction + map_expr_dag per context.",
     "C22": " Also: mixed elements whose sub-elements have reference size != physical size (symmetric tensors, Piola vectors on an immersed mesh) in non-last position, with replace_argument True and False.",
-    "C28": " Also: weighted sums w1*x + w2*y + w3*z with pairwise different non-unit weights over components of different kinds (Form, Action, Cofunction, Matrix-Action, ...) in every order, followed by derivative / action / adjoint / replace, with histories in which components vanish under the operation (all eight vanishing patterns); TLC checks D(w1A+w2B+w3C) = w1DA+w2DB+w3DC on the model.",
+    "C28": " Also: weighted sums w1*x + w2*y + w3*z with pairwise different non-unit weights over components of different kinds (Form, Action, Cofunction, Matrix-Action, ...) in every order, followed by derivative / action / adjoint / replace, with histories in which components vanish under the operation (all eight vanishing patterns); TLC checks D(w1A+w2B+w3C) = w1DA+w2DB+w3DC on the model. The numbers 0, 0.0 and Zero() as operands of + and - (B+0, 0+B, B-0 denote B; 0-B denotes -B), in-place r -= B, A @ f / A * f / A(B) notations.",
     "C24": " Also: an index label re-used in nested scopes (a closed inner sum over i inside a summand summed over i).",
     "C08": " Symmetric elements are modelled as declared (ordered dictionaries from block components to sub-elements, any block shape); TLC proves that the declaration order is irrelevant.",
+    "C14": " Arguments are identified by (number, part): rank-3 forms with a third argument (complex mode: conjugation discipline for every number above 0) and block arguments with parts (products of two parts of one number are quadratic).",
+    "C23": " Conditionals at or below a compared operand, classified by the coded types of condition and both values (every class required by a vacuity guard).",
     "C21": " Also: images that are numbers or zero tensors, and shape-changing maps of equal rank (2 -> 3, 2x3 -> 3x2). replace applied to unexpanded Gateaux derivatives with images that contain the differentiation variable.",
     "C25": " Universes with directional spaces of several dimensions at once (related only through an isotropic space between them).",
     "C27": " Form histories include a FormSum of cofunctions, 1.0*a and measures reconfigured with the user's metadata dicts plus degree=/scheme=. Forms that differ only in an argument slot of a nested external operator (eq/equals must not re-point operands); list-valued metadata entries.",
